@@ -165,6 +165,38 @@ Definition n_edges (fs : list face) : Z :=
 Definition chi_of (nv : Z) (fs : list face) : Z := euler_char nv (n_edges fs) (Z.of_nat (length fs)).
 Definition rejected (nv : Z) (fs : list face) : bool := gate_reject (chi_of nv fs).
 
+(* ------------------------------------------------------------------ weighted neighbours, and the boolean
+   "every neighbour of an interior vertex is listed, every interior vertex is joined to the border" test *)
+(* the neighbours of k with their weights: one item per adjacent face edge *)
+Definition edge_nbrs (i j : Z) (w : Q) (k : Z) : list (Z * Q) :=
+  (if (i =? k)%Z then [(j, w)] else []) ++ (if (j =? k)%Z then [(i, w)] else []).
+Fixpoint nbrs (t : Z) (fs : list face) (cot : option (list Q)) (k : Z) : list (Z * Q) :=
+  match fs with
+  | [] => []
+  | (p, q, r) :: rest =>
+      (let '(a, b, c) := face_weights cot t in edge_nbrs p q c k ++ edge_nbrs q r a k ++ edge_nbrs r p b k)
+      ++ nbrs (t + 1)%Z rest cot k
+  end.
+
+Definition zmem (x : Z) (l : list Z) : bool := existsb (Z.eqb x) l.
+Fixpoint nodupb (l : list Z) : bool :=
+  match l with [] => true | x :: t => negb (zmem x t) && nodupb t end.
+
+Definition nb_table (fs : list face) (cot : option (list Q)) (free : list Z) : list (Z * list (Z * Q)) :=
+  map (fun i => (i, nbrs 0%Z fs cot i)) free.
+Definition closed_b (tab : list (Z * list (Z * Q))) (free bnd : list Z) : bool :=
+  forallb (fun e => forallb (fun jw => zmem (fst jw) free || zmem (fst jw) bnd) (snd e)) tab.
+(* one round of marking: the interior vertices with a neighbour on the border or already marked *)
+Definition mark_step (tab : list (Z * list (Z * Q))) (bnd M : list Z) : list Z :=
+  map fst (filter (fun e => existsb (fun jw => zmem (fst jw) bnd || zmem (fst jw) M) (snd e)) tab).
+Fixpoint mark_iter (n : nat) (tab : list (Z * list (Z * Q))) (bnd M : list Z) : list Z :=
+  match n with O => M | S n' => mark_iter n' tab bnd (mark_step tab bnd M) end.
+Definition linked_b (tab : list (Z * list (Z * Q))) (free bnd : list Z) : bool :=
+  let M := mark_iter (length free) tab bnd [] in forallb (fun i => zmem i M) free.
+Definition disk_links_b (fs : list face) (cot : option (list Q)) (free bnd : list Z) : bool :=
+  let tab := nb_table fs cot free in
+  nodupb (free ++ bnd) && closed_b tab free bnd && linked_b tab free bnd.
+
 (* ------------------------------------------------------------------ orientation *)
 Definition orient_det (p q r : Q * Q) : Q :=
   (fst q - fst p) * (snd r - snd p) - (snd q - snd p) * (fst r - fst p).
